@@ -1,6 +1,9 @@
 import Netpol.Proofs.FormatLayer
 import Netpol.Proofs.FormatParse
 import Netpol.Proofs.FormatExposure
+import Netpol.Proofs.FormatParseX
+import Netpol.Proofs.FormatDotNodes
+import Netpol.Proofs.FormatDiffEngine
 /-! C09 — every output format faithfully encodes the computed result.
 
 The formatters are modelled byte for byte in `Model/Format.lean` (tied to the Go code by the K-diff of the `fmt` family:
@@ -24,13 +27,18 @@ What is and is not covered:
   with `;` and splits again). Peer strings of Kubernetes objects and the connection strings satisfy all of them
   (checked on examples below, not proved for every engine output);
 * for fields that need escaping the renderers are still modelled exactly (and K-diffed), but not inverted here;
-* dot: the edges are read back (src, dst, label, colours); node lines, clusters and the legend are shown not to
-  read as edges; the node colours of the diff graph (new / lost peers) are not parsed back;
-* exposure-analysis sections (`--exposure`): modelled and K-diffed for all five formats (`listToStringX`); here only
-  part (a): the tables of the egress / ingress sections are permutations of the exposure rows (`exposure_tables`), whose
-  members are characterised in `mem_xRows_iff` (entries of the exposed peers, and the report's connections with IP
-  blocks). No parse-back for these sections (the representative-peer strings contain blanks, commas and brackets), and
-  nothing about the dot graph with exposure results. -/
+* dot: the edges are read back (src, dst, label, colours), and the node lines: every drawn peer with its label, its
+  colour and the namespace cluster it is drawn in (`list_dot_nodes`, `diff_dot_nodes`); in the diff graph the colour is
+  the workload annotation (`diff_dot_annotations`, `diffNodeColor_iff`: new `#008000`, lost `red`, persistent `blue`);
+* exposure-analysis sections (`--exposure`): modelled and K-diffed for all five formats (`listToStringX`). (a) the
+  tables of the egress / ingress sections are permutations of the exposure rows (`exposure_tables`, `mem_xRows_iff`);
+  (b) txt, json, csv and md are read back to (base table, egress rows, ingress rows[, unprotected-workload lines])
+  (`exposure_*_parse_back`, `exposure_*_output_determines_tables`). An ingress row comes back as (src = the other end,
+  dst = the exposed workload) although txt, csv and md print the workload first: `ingress_row_orientation`. Conditions as
+  for the base formats, plus: csv — a non-empty connection string (section markers are records with an empty third
+  field); txt — no blank in the exposed peer's string and no colon in the connection string (the other end may hold
+  blanks, commas, colons and brackets: representative peers). Not covered: parse-back of the dot graph with exposure
+  results (its order independence is in `Properties/C08/Format.lean`). -/
 namespace Netpol.Properties.C09
 open Netpol Format Engine List
 
@@ -268,6 +276,170 @@ theorem mem_xRows_iff (conns : List Conn) (xs : List XPeerF) (isIngress : Bool) 
     · exact ⟨p, hp, Or.inr ⟨c, ⟨hc, hcond⟩, rfl⟩⟩
 
 -- ------------------------------------------------------------------------------------------
+-- (b) exposure sections: parse-back
+
+theorem forall_perm_rows {P : Row → Prop} {rows l : List Row} (hp : rows ~ l) (h : ∀ r ∈ l, P r) : ∀ r ∈ rows, P r :=
+  fun r hr => h r (hp.mem_iff.mp hr)
+
+/-- csv with exposure sections. Hypotheses: no quote, no newline, a non-empty connection string, in the rows of the report
+and in the exposure rows. -/
+theorem exposure_csv_parse_back {conns : List Conn} (peers : List PeerInfo) {xs : List XPeerF} (hb : ∀ c ∈ conns, c.row.CsvXWF)
+    (he : ∀ r ∈ xRows conns xs false, r.CsvXWF) (hi : ∀ r ∈ xRows conns xs true, r.CsvXWF) :
+    parseCsvX (listToStringX "csv" conns peers xs) = some (table conns, egressRows conns xs, ingressRows conns xs) := by
+  have e : listToStringX "csv" conns peers xs = listCsvX conns xs := by simp [listToStringX]
+  rw [e, listCsvX_eq]
+  exact parseCsvX_renderCsvX (forall_perm_rows (table_perm_rows conns) (forall_rows hb))
+    (forall_perm_rows (egressRows_perm_self conns xs) he) (forall_perm_rows (ingressRows_perm_self conns xs) hi)
+
+/-- md with exposure sections. Hypotheses: no `|`, no newline. -/
+theorem exposure_md_parse_back {conns : List Conn} (peers : List PeerInfo) {xs : List XPeerF} (hb : ∀ c ∈ conns, c.row.MdWF)
+    (he : ∀ r ∈ xRows conns xs false, r.MdWF) (hi : ∀ r ∈ xRows conns xs true, r.MdWF) :
+    parseMdX (listToStringX "md" conns peers xs) = some (table conns, egressRows conns xs, ingressRows conns xs) := by
+  have e : listToStringX "md" conns peers xs = listMdX conns xs := by simp [listToStringX]
+  rw [e, listMdX_eq]
+  exact parseMdX_renderMdX (forall_perm_rows (table_perm_rows conns) (forall_rows hb))
+    (forall_perm_rows (egressRows_perm_self conns xs) he) (forall_perm_rows (ingressRows_perm_self conns xs) hi)
+
+/-- json with exposure sections. Hypothesis: no character `encoding/json` escapes. -/
+theorem exposure_json_parse_back {conns : List Conn} (peers : List PeerInfo) {xs : List XPeerF} (hb : ∀ c ∈ conns, c.row.JsonWF)
+    (he : ∀ r ∈ xRows conns xs false, r.JsonWF) (hi : ∀ r ∈ xRows conns xs true, r.JsonWF) :
+    parseJsonX (listToStringX "json" conns peers xs) = some (table conns, egressRows conns xs, ingressRows conns xs) := by
+  have e : listToStringX "json" conns peers xs = listJsonX conns xs := by simp [listToStringX]
+  rw [e, listJsonX_eq]
+  exact parseJsonX_renderJsonX (forall_perm_rows (table_perm_rows conns) (forall_rows hb))
+    (forall_perm_rows (egressRows_perm_self conns xs) he) (forall_perm_rows (ingressRows_perm_self conns xs) hi)
+
+/-- txt with exposure sections: the three tables and the lines of the unprotected workloads. Hypotheses: the base rows as
+for txt; exposure rows: no blank in the exposed peer (egress: src, ingress: dst), no colon in the connection string, no
+newline; no newline in the exposed peers' strings. -/
+theorem exposure_txt_parse_back {conns : List Conn} (peers : List PeerInfo) {xs : List XPeerF} (hb : ∀ c ∈ conns, c.row.TxtWF)
+    (he : ∀ r ∈ xRows conns xs false, r.EgWF) (hi : ∀ r ∈ xRows conns xs true, r.IngWF) (hx : ∀ p ∈ xs, NoNL p.peer.str) :
+    parseTxtX (listToStringX "txt" conns peers xs) =
+      some (rowsTxt conns, egressRows conns xs, ingressRows conns xs, unprotectedLines xs) := by
+  have e : listToStringX "txt" conns peers xs = listTxtX conns xs := by simp [listToStringX]
+  rw [e, listTxtX_eq]
+  exact parseTxtX_renderTxtX _ (forall_perm_rows (rowsTxt_perm conns) (forall_rows hb))
+    (forall_perm_rows (egressRows_perm_self conns xs) he) (forall_perm_rows (ingressRows_perm_self conns xs) hi)
+    (unprotectedLines_ok hx)
+
+/-- equal tables: the same triples of the report, the same exposure rows in both directions -/
+theorem tables_eq_perm {c c' : List Conn} {xs xs' : List XPeerF}
+    (h : (table c, egressRows c xs, ingressRows c xs) = (table c', egressRows c' xs', ingressRows c' xs')) :
+    c.map Conn.row ~ c'.map Conn.row ∧ xRows c xs false ~ xRows c' xs' false ∧ xRows c xs true ~ xRows c' xs' true := by
+  simp only [Prod.mk.injEq] at h
+  obtain ⟨h1, h2, h3⟩ := h
+  exact ⟨(table_perm_rows c).symm.trans (h1 ▸ table_perm_rows c'),
+    (egressRows_perm_self c xs).symm.trans (h2 ▸ egressRows_perm_self c' xs'),
+    (ingressRows_perm_self c xs).symm.trans (h3 ▸ ingressRows_perm_self c' xs')⟩
+
+/-- two reports with the same csv output (with exposure sections) have the same triples and the same exposure rows -/
+theorem exposure_csv_output_determines_tables {c c' : List Conn} (p p' : List PeerInfo) {xs xs' : List XPeerF}
+    (hb : ∀ x ∈ c, x.row.CsvXWF) (he : ∀ r ∈ xRows c xs false, r.CsvXWF) (hi : ∀ r ∈ xRows c xs true, r.CsvXWF)
+    (hb' : ∀ x ∈ c', x.row.CsvXWF) (he' : ∀ r ∈ xRows c' xs' false, r.CsvXWF) (hi' : ∀ r ∈ xRows c' xs' true, r.CsvXWF)
+    (heq : listToStringX "csv" c p xs = listToStringX "csv" c' p' xs') :
+    c.map Conn.row ~ c'.map Conn.row ∧ xRows c xs false ~ xRows c' xs' false ∧ xRows c xs true ~ xRows c' xs' true := by
+  have a := exposure_csv_parse_back p hb he hi
+  rw [heq, exposure_csv_parse_back p' hb' he' hi'] at a
+  exact tables_eq_perm (Option.some.inj a).symm
+
+theorem exposure_md_output_determines_tables {c c' : List Conn} (p p' : List PeerInfo) {xs xs' : List XPeerF}
+    (hb : ∀ x ∈ c, x.row.MdWF) (he : ∀ r ∈ xRows c xs false, r.MdWF) (hi : ∀ r ∈ xRows c xs true, r.MdWF)
+    (hb' : ∀ x ∈ c', x.row.MdWF) (he' : ∀ r ∈ xRows c' xs' false, r.MdWF) (hi' : ∀ r ∈ xRows c' xs' true, r.MdWF)
+    (heq : listToStringX "md" c p xs = listToStringX "md" c' p' xs') :
+    c.map Conn.row ~ c'.map Conn.row ∧ xRows c xs false ~ xRows c' xs' false ∧ xRows c xs true ~ xRows c' xs' true := by
+  have a := exposure_md_parse_back p hb he hi
+  rw [heq, exposure_md_parse_back p' hb' he' hi'] at a
+  exact tables_eq_perm (Option.some.inj a).symm
+
+theorem exposure_json_output_determines_tables {c c' : List Conn} (p p' : List PeerInfo) {xs xs' : List XPeerF}
+    (hb : ∀ x ∈ c, x.row.JsonWF) (he : ∀ r ∈ xRows c xs false, r.JsonWF) (hi : ∀ r ∈ xRows c xs true, r.JsonWF)
+    (hb' : ∀ x ∈ c', x.row.JsonWF) (he' : ∀ r ∈ xRows c' xs' false, r.JsonWF) (hi' : ∀ r ∈ xRows c' xs' true, r.JsonWF)
+    (heq : listToStringX "json" c p xs = listToStringX "json" c' p' xs') :
+    c.map Conn.row ~ c'.map Conn.row ∧ xRows c xs false ~ xRows c' xs' false ∧ xRows c xs true ~ xRows c' xs' true := by
+  have a := exposure_json_parse_back p hb he hi
+  rw [heq, exposure_json_parse_back p' hb' he' hi'] at a
+  exact tables_eq_perm (Option.some.inj a).symm
+
+/-- txt: also the same unprotected-workload lines -/
+theorem exposure_txt_output_determines_tables {c c' : List Conn} (p p' : List PeerInfo) {xs xs' : List XPeerF}
+    (hb : ∀ x ∈ c, x.row.TxtWF) (he : ∀ r ∈ xRows c xs false, r.EgWF) (hi : ∀ r ∈ xRows c xs true, r.IngWF)
+    (hx : ∀ q ∈ xs, NoNL q.peer.str)
+    (hb' : ∀ x ∈ c', x.row.TxtWF) (he' : ∀ r ∈ xRows c' xs' false, r.EgWF) (hi' : ∀ r ∈ xRows c' xs' true, r.IngWF)
+    (hx' : ∀ q ∈ xs', NoNL q.peer.str)
+    (heq : listToStringX "txt" c p xs = listToStringX "txt" c' p' xs') :
+    c.map Conn.row ~ c'.map Conn.row ∧ xRows c xs false ~ xRows c' xs' false ∧ xRows c xs true ~ xRows c' xs' true ∧
+      unprotectedLines xs = unprotectedLines xs' := by
+  have a := exposure_txt_parse_back p hb he hi hx
+  rw [heq, exposure_txt_parse_back p' hb' he' hi' hx'] at a
+  have a' := (Option.some.inj a).symm
+  simp only [Prod.mk.injEq] at a'
+  obtain ⟨h1, h2, h3, h4⟩ := a'
+  exact ⟨(rowsTxt_perm c).symm.trans (h1 ▸ rowsTxt_perm c'),
+    (egressRows_perm_self c xs).symm.trans (h2 ▸ egressRows_perm_self c' xs'),
+    (ingressRows_perm_self c xs).symm.trans (h3 ▸ ingressRows_perm_self c' xs'), h4⟩
+
+/-- the orientation of the ingress section: a row printed as `EXPOSED <= OTHER` (csv, md: columns `dst,src,conn`) is the
+triple (src = OTHER, dst = EXPOSED). If a renderer wrote the columns of that section source first, a row with src ≠ dst
+would be read back swapped and the parse-back theorems would fail: reading the rendering of the swapped row gives the
+swapped row, not the row. -/
+theorem ingress_row_orientation {r : Row} (h : r.CsvXWF) (hne : r.src ≠ r.dst) :
+    parseCsvX (renderCsvX [] [] [r]) = some ([], [], [r]) ∧
+    parseCsvX (renderCsvX [] [] [⟨r.dst, r.src, r.conn⟩]) ≠ some ([], [], [r]) := by
+  have hs : (⟨r.dst, r.src, r.conn⟩ : Row).CsvXWF := ⟨⟨h.1.2.1, h.1.1, h.1.2.2⟩, h.2⟩
+  refine ⟨parseCsvX_renderCsvX (by simp) (by simp) (by simpa using h), ?_⟩
+  rw [parseCsvX_renderCsvX (by simp) (by simp) (by simpa using hs)]
+  intro e
+  simp only [Option.some.injEq, Prod.mk.injEq, cons.injEq, and_true, true_and] at e
+  have := congrArg Row.src e
+  exact hne this.symm
+
+-- ------------------------------------------------------------------------------------------
+-- (b) dot: the nodes
+
+/-- list dot: every visited peer comes back with its label (`name[Kind]`, or its string outside clusters), its colour (IP
+blocks `red2`, others `blue`) and the namespace of its cluster; the read-back list is a permutation of the drawn nodes. -/
+theorem list_dot_nodes {conns : List Conn} {peers : List PeerInfo} (h : ∀ c ∈ conns, RowDotWF c.row)
+    (hp : ∀ p ∈ listVisitSeq conns peers, p.DotWF) :
+    parseDotNodes (listToString "dot" conns peers) = orderedNodes ((listVisited conns peers).map PeerInfo.node) ∧
+    orderedNodes ((listVisited conns peers).map PeerInfo.node) ~ (listVisited conns peers).map PeerInfo.node := by
+  have e : listToString "dot" conns peers = listDot conns peers := by simp [listToString]
+  rw [e]
+  exact ⟨parseDotNodes_listDot (fun c hc => (h c hc).edge) hp, orderedNodes_perm _⟩
+
+/-- diff dot: every visited peer comes back with its label, the colour of its visit and its namespace cluster -/
+theorem diff_dot_nodes (ref1 ref2 : String) {ds : List DConn} (hne : diffIsEmpty ds = false)
+    (h : ∀ d ∈ ds, (d.row.edge ref1).WF) (hp : ∀ v ∈ diffVisitSeq ds, v.1.DotWF) :
+    parseDotNodes (diffToString "dot" ref1 ref2 ds) = orderedNodes ((diffVisited ds).map diffNode) ∧
+    orderedNodes ((diffVisited ds).map diffNode) ~ (diffVisited ds).map diffNode := by
+  have e : diffToString "dot" ref1 ref2 ds = diffDot ref1 ds := by simp [diffToString, hne]
+  rw [e]
+  exact ⟨parseDotNodes_diffDot ref1 h hp, orderedNodes_perm _⟩
+
+/-- the diff graph encodes the workload annotations: the node of the source and of the destination of every entry is
+drawn in the colour of its new/lost flag (`diffNodeColor_iff`: `#008000` iff new in an added entry, `red` iff lost in a
+removed entry, `blue` otherwise) — when all visits of a peer string agree (`DiffPeersConsistent`) -/
+theorem diff_dot_annotations (ref1 ref2 : String) {ds : List DConn} (hne : diffIsEmpty ds = false)
+    (h : ∀ d ∈ ds, (d.row.edge ref1).WF) (hp : ∀ v ∈ diffVisitSeq ds, v.1.DotWF) (hk : DiffPeersConsistent ds)
+    {d : DConn} (hd : d ∈ ds) (hdr : d.drawn = true) :
+    diffNode (d.src, diffNodeColor d.typ d.newSrc) ∈ parseDotNodes (diffToString "dot" ref1 ref2 ds) ∧
+    diffNode (d.dst, diffNodeColor d.typ d.newDst) ∈ parseDotNodes (diffToString "dot" ref1 ref2 ds) := by
+  have e : diffToString "dot" ref1 ref2 ds = diffDot ref1 ds := by simp [diffToString, hne]
+  rw [e]
+  exact Format.diff_dot_annotations ref1 h hp hk hd hdr
+
+/-- … for the computed diff (`diffConns`) the consistency of the visits is a theorem (`diffConns_peers_consistent`):
+every drawn entry has its two nodes in the graph, in the colour of its new/lost flags -/
+theorem computed_diff_dot_annotations (ref1 ref2 : String) {W : List LPeer} (hW : PeersOK W)
+    {e1 e2 : List Entry} {peers1 peers2 : List LPeer} (h1 : EntriesOK W peers1 e1) (h2 : EntriesOK W peers2 e2)
+    (hne : diffIsEmpty (diffConns e1 e2 peers1 peers2) = false)
+    (h : ∀ d ∈ diffConns e1 e2 peers1 peers2, (d.row.edge ref1).WF)
+    (hp : ∀ v ∈ diffVisitSeq (diffConns e1 e2 peers1 peers2), v.1.DotWF)
+    {d : DConn} (hd : d ∈ diffConns e1 e2 peers1 peers2) (hdr : d.drawn = true) :
+    diffNode (d.src, diffNodeColor d.typ d.newSrc) ∈ parseDotNodes (diffToString "dot" ref1 ref2 (diffConns e1 e2 peers1 peers2)) ∧
+    diffNode (d.dst, diffNodeColor d.typ d.newDst) ∈ parseDotNodes (diffToString "dot" ref1 ref2 (diffConns e1 e2 peers1 peers2)) :=
+  diff_dot_annotations ref1 ref2 hne h hp (diffConns_peers_consistent hW h1 h2) hd hdr
+
+-- ------------------------------------------------------------------------------------------
 -- (a) diff formats
 
 /-- the row of a computed diff entry: both connection strings and the annotation of `getDiffInfo` -/
@@ -457,5 +629,38 @@ example : parseDiffMd (diffToString "md" "dir1" "dir2" exDiff) = some (diffRows 
   diff_md_parse_back (by decide) (by decide) (by decide) (by decide)
 example : parseDotEdges (diffToString "dot" "dir1" "dir2" exDiff) = (diffDotRows "dir1" exDiff).map (DRow.edge "dir1") :=
   diff_dot_parse_back "dir1" "dir2" (by decide) (by decide) (by decide)
+
+-- exposure sections and dot nodes
+
+/-- two exposed peers: an unprotected one, and one exposed on ingress to the pods of namespace `ns1` and on egress to
+the entire cluster -/
+def exXs : List XPeerF :=
+  [⟨wlA, false, [], true, [⟨true, none, none, "TCP 80"⟩]⟩,
+   ⟨wlB, true, [⟨false, some ⟨[(nsNameLabelKey, "ns1")], []⟩, none, "UDP 53"⟩], true, [⟨true, none, none, "All Connections"⟩]⟩]
+
+example : parseCsvX (listToStringX "csv" exConns [wlA, wlB] exXs) =
+    some (table exConns, egressRows exConns exXs, ingressRows exConns exXs) :=
+  exposure_csv_parse_back _ (by decide) (by decide) (by decide)
+example : parseMdX (listToStringX "md" exConns [wlA, wlB] exXs) =
+    some (table exConns, egressRows exConns exXs, ingressRows exConns exXs) :=
+  exposure_md_parse_back _ (by decide) (by decide) (by decide)
+example : parseJsonX (listToStringX "json" exConns [wlA, wlB] exXs) =
+    some (table exConns, egressRows exConns exXs, ingressRows exConns exXs) :=
+  exposure_json_parse_back _ (by decide) (by decide) (by decide)
+example : parseTxtX (listToStringX "txt" exConns [wlA, wlB] exXs) =
+    some (rowsTxt exConns, egressRows exConns exXs, ingressRows exConns exXs, unprotectedLines exXs) :=
+  exposure_txt_parse_back _ (by decide) (by decide) (by decide) (by decide)
+/-- the ingress rows of the example: the representative peer `ns1/[all pods]` is the source, the workload the destination -/
+example : (⟨"ns1/[all pods]", "ns-2/db[StatefulSet]", "UDP 53"⟩ : Row) ∈ xRows exConns exXs true := by decide
+example : parseCsvX (renderCsvX [] [] [⟨"ns1/[all pods]", "ns-2/db[StatefulSet]", "UDP 53"⟩]) =
+    some ([], [], [⟨"ns1/[all pods]", "ns-2/db[StatefulSet]", "UDP 53"⟩]) :=
+  (ingress_row_orientation (by decide) (by decide)).1
+
+example : parseDotNodes (listToString "dot" exConns [wlA, wlB]) = orderedNodes ((listVisited exConns [wlA, wlB]).map PeerInfo.node) :=
+  (list_dot_nodes (by decide) (by decide)).1
+/-- in the example diff the new workload `ns1/new[Job]` is drawn green inside the cluster of `ns1` -/
+example : (⟨"ns1/new[Job]", "new[Job]", "#008000", some "ns1"⟩ : DotNode) ∈ parseDotNodes (diffToString "dot" "dir1" "dir2" exDiff) :=
+  (diff_dot_annotations "dir1" "dir2" (by decide) (by decide) (by decide) (by unfold DiffPeersConsistent KeyInj; decide)
+    (d := ⟨"added", wlC, ipAll, "No Connections", "All Connections", true, false⟩) (by decide) (by decide)).1
 
 end Netpol.Properties.C09
